@@ -566,7 +566,7 @@ class ExprMixin:
                 if via_ptr:
                     p = cur_lv.get(self, st) if cur_lv is not None else (cur_val if cur_val is not None else self.ev(e["X"], st))
                     self.oblige(st, "safety", "nil-deref@%s" % self.site(e), p.oid != rid(0), e.get("ln"), "nil pointer dereference")
-                    cur_lv = HeapLV(p.oid, stype, name, ft)
+                    cur_lv = self.field_lv(p, stype, name, ft)
                 else:
                     if cur_lv is None:
                         if first:
@@ -578,7 +578,10 @@ class ExprMixin:
                                 val = self.ev(e["X"], st)
                                 base = _ConstLV(val, xt)
                             cur_lv = base
-                    cur_lv = FieldLV(cur_lv, name, ft)
+                    if isinstance(cur_lv, HeapLV) and cur_lv.name is not None:
+                        cur_lv = HeapLV(cur_lv.oid, cur_lv.owner, cur_lv.name + "." + name, ft)
+                    else:
+                        cur_lv = FieldLV(cur_lv, name, ft)
                 first = False
             return cur_lv
         if k == "IndexExpr":
@@ -610,9 +613,16 @@ class ExprMixin:
             return _ConstLV(self.ev(e, st), self.T(e))
         raise Unsupported("lvalue of " + k)
 
+    def field_lv(self, p, stype, name, ft):
+        """Heap cell of field `name` of the struct p points to (p may be an interior pointer)."""
+        root = getattr(p, "root", None)
+        if root is not None:
+            return HeapLV(p.oid, root[0], ".".join(root[1] + (name,)), ft)
+        return HeapLV(p.oid, stype, name, ft)
+
     def deref_lv(self, p, t):
         if t.under().k == "struct":
-            return _StructHeapLV(p.oid, t)
+            return _StructHeapLV(p, t, self)
         return HeapLV(p.oid, t, None, t)
 
     def index_value(self, e, st):
@@ -751,7 +761,14 @@ class ExprMixin:
                 return self.escaped_ptr(x["obj"], st)
             raise Unsupported("address of local %s (not marked escaped)" % obj["name"])
         if k == "SelectorExpr":
-            # &p.f : interior pointer
+            # &p.f : interior pointer to a struct-typed field of a heap object
+            sel = x.get("sel")
+            if sel and sel["kind"] == "field" and self.T(x).under().k == "struct":
+                path = self.field_path(self.T(x["X"]), sel["index"])
+                if path and path[0][3] and not any(pp[3] for pp in path[1:]):
+                    p = self.ev(x["X"], st)
+                    root = getattr(p, "root", None) or (path[0][0], ())
+                    return PtrV(p.oid, self.T(x), root=(root[0], root[1] + tuple(pp[1] for pp in path)))
             raise Unsupported("interior pointer &x.f")
         if k == "IndexExpr":
             raise Unsupported("interior pointer &a[i]")
@@ -815,17 +832,17 @@ class _ConstLV(LV):
 
 
 class _StructHeapLV(LV):
-    """*p for a struct pointee: fields are loaded lazily through FieldLV -> here."""
+    """*p for a struct pointee: one heap cell per field."""
 
-    def __init__(self, oid, typ):
-        self.oid = oid
+    def __init__(self, p, typ, ex):
+        self.p = p
         self.typ = typ
 
     def get(self, ex, st):
         f = {}
         for name, ft, _ in self.typ.fields():
             try:
-                f[name] = HeapLV(self.oid, self.typ, name, ft).get(ex, st)
+                f[name] = ex.field_lv(self.p, self.typ, name, ft).get(ex, st)
             except Unsupported:
                 f[name] = None
         return StructV(self.typ, f)
@@ -833,4 +850,4 @@ class _StructHeapLV(LV):
     def set(self, ex, st, v):
         for name, ft, _ in self.typ.fields():
             if v.f.get(name) is not None:
-                HeapLV(self.oid, self.typ, name, ft).set(ex, st, v.f[name])
+                ex.field_lv(self.p, self.typ, name, ft).set(ex, st, v.f[name])
